@@ -8,6 +8,8 @@
 #include <asl/TextFile.h>
 #include <asl/Var.h>
 #include <unistd.h>
+#include <signal.h>
+#include <sys/stat.h>
 #include <math.h>
 using namespace asl;
 using namespace vh;
@@ -73,6 +75,14 @@ static std::string dumpNonEmpty(const IniFile& ini)
 		if (v.length() > 0)
 			s += (k++ ? "," : "") + hexs(key) + "=" + hexs(v);
 	return s;
+}
+
+// an operation that must return: the process ends with exit code 98 when it has not after a few seconds
+static void onAlarm(int)
+{
+	static const char msg[] = "hang: the operation did not return within its time limit\n";
+	if (write(2, msg, sizeof msg - 1) < 0) {}
+	_exit(98);
 }
 
 static void reset()
@@ -236,6 +246,30 @@ static std::string step(const Toks& t)
 		}
 		IniFile f(S(g_path), false);
 		return dumpNonEmpty(f);
+	}
+	if (op == "inidir" && t.size() >= 2 && t.size() % 2 == 0) {
+		// an IniFile on a path that opens but cannot be read (a directory): the constructor must return
+		if (g_ini) { delete g_ini; g_ini = 0; }
+		std::string dir = g_path + ".d";
+		rmdir(dir.c_str());
+		if (mkdir(dir.c_str(), 0700) != 0) return "err mkdir";
+		signal(SIGALRM, onAlarm);
+		alarm(t[1] == "1" ? 2 : 5);   // with shouldwrite the unrepaired loop also eats memory
+		std::string out;
+		{
+			IniFile ini(S(dir), t[1] == "1");
+			out = dump(ini);
+			for (size_t i = 2; i + 1 < t.size(); i += 2) {
+				Exact n(unhex(t[i])), v(unhex(t[i + 1]));
+				ini.set(String(n.p, (int)n.n), String(v.p, (int)v.n));
+			}
+			out += " | " + dump(ini);
+		}
+		alarm(0);
+		struct stat sb;
+		bool still = stat(dir.c_str(), &sb) == 0 && S_ISDIR(sb.st_mode);
+		rmdir(dir.c_str());
+		return out + (still ? " | dir" : " | changed");
 	}
 	if (op == "tabw" || op == "tabws") {
 		std::string lens;
